@@ -317,13 +317,16 @@ class FieldMappingTransformationBase(DetectionItemTransformation):
                 self.processing_item_applied(detection_item)
                 result = detection_item
             else:
-                result = SigmaDetection(
-                    [
-                        dataclasses.replace(detection_item, field=field, auto_modifiers=False)
-                        for field in mapping
-                    ],
-                    item_linking=ConditionOR,
-                )
+                replacements = [
+                    dataclasses.replace(detection_item, field=field, auto_modifiers=False)
+                    for field in mapping
+                ]
+                for replacement in replacements:
+                    # the copies stand for the item that was processed so far: keep its tracking
+                    replacement.applied_processing_items = set(
+                        detection_item.applied_processing_items
+                    )
+                result = SigmaDetection(replacements, item_linking=ConditionOR)
         if field_match or fieldref_match:  # field name was changed or field reference was mapped
             if self._pipeline is not None and mapping is not None:
                 self._pipeline.field_mappings.add_mapping(field, mapping)
